@@ -9,9 +9,8 @@
      l_rc     reference_count of the shared state
      l_alive  the shared state has not been destroyed + deallocated
      l_rel    the holders that have released their reference, newest first:
-                0     = the stack copy `r` of the predecessor's receiver (split, ensure_started:
-                        the receiver owns an intrusive_ptr<shared_state>; split_tuple: the receiver
-                        holds a plain `shared_state&`, so there is NO such holder),
+                0     = the stack copy `r` of the predecessor's receiver (the receiver owns an
+                        intrusive_ptr<shared_state> in all three adaptors),
                 t > 0 = the operation state of consumer t (one intrusive_ptr from connect until
                         the operation state is destroyed)
      l_reads  every read of the variant v, newest first:
@@ -28,7 +27,7 @@
        (pc CEnd, signalled, not yet released).  Thread 0 cannot write another thread's locals
        in Base/Conc, so "consumer cn has released" is membership in [l_rel]; cn's own later
        release step is a no-op then.
-     * split / ensure_started: `r` is destroyed when set_value/set_error/set_stopped returns,
+     * `r` is destroyed when set_value/set_error/set_stopped returns,
        i.e. after set_predecessor_done() has run the continuations and cleared them.  This
        decrement is coalesced with the P3 step: between the loop and the release the thread
        touches only its own stack and the state it still holds a reference to.
@@ -39,7 +38,8 @@
      (predecessor_done = true), P2 (every attempt on mtx), P3 (continuations.empty() /
      std::move(continuations); one access + read of v per stored continuation; for split /
      ensure_started continuations.clear() / continuation.reset() after the loop; split_tuple
-     moves the continuations to a local and touches nothing of `this` after the last one),
+     moves the continuations to a local and touches nothing of `this` after the last one — the
+     model logs one more access there, which is harmless: r still holds its reference),
      C0 (start_called.exchange), C1 (predecessor_done, v), C2 (mtx, predecessor_done, v),
      C3 (continuations, mtx).
 
@@ -49,7 +49,12 @@ From Coq Require Import List NArith Bool Arith.
 From Pika Require Import Base.Conc Model.Sender Model.Handoff.
 Import ListNotations.
 
-Definition holds_ref (k : hkind) : bool := match k with HTuple => false | _ => true end.
+(* all three receivers carry an intrusive_ptr<shared_state> (split_tuple's held a plain
+   `shared_state&` until the repair recorded in KNOWN_FINDINGS.txt: the predecessor thread's
+   lock_guard / std::move(continuations) could then run on a freed state — replayed on the real
+   code by the LIFE cases of harness/c03_lock.cpp, which report it again when the repair is
+   reverted) *)
+Definition holds_ref (k : hkind) : bool := match k with HSplit => true | HEnsure => true | HTuple => true end.
 
 Record life := {
   l_rc : nat;
@@ -146,3 +151,17 @@ Definition hl_run (k : hkind) (c : completion) (n : nat) (sched : list (nat * (n
 (* schedules from thread ids, with one oracle for every step *)
 Definition with_oracle (o : nat -> bool) (ts : list nat) : list (nat * (nat -> bool)) :=
   map (fun t => (t, o)) ts.
+
+(* for the correspondence check (LIFE cases of harness/c03_lock.cpp): as [h_trace], the critical
+   section of add_continuation (C2 keeping the lock, then C3) is one step of the real code; one
+   oracle per case.  Returns the site every scheduled thread was parked at and the final state. *)
+Fixpoint hl_trace (k : hkind) (c : completion) (n : nat) (o : nat -> bool) (sched : list nat)
+    (st : (hs * life) * (nat -> hpc * bool)) (acc : list nat)
+  : list nat * ((hs * life) * (nat -> hpc * bool)) :=
+  match sched with
+  | [] => (rev acc, st)
+  | t :: rest =>
+      let st1 := step (hl_tstep k c n) st (t, o) in
+      let st2 := match fst (snd st1 t) with C3 => step (hl_tstep k c n) st1 (t, o) | _ => st1 end in
+      hl_trace k c n o rest st2 (h_site (fst (snd st t)) :: acc)
+  end.
